@@ -1,5 +1,141 @@
+//! Runs a history of requests on ONE long-lived `Program` and reports the
+//! outcome of every request.
+//!
+//! case: {"k":"hist", "ext_code": {name: code}, "files": {path: text},
+//!        "sources": [text, ...],
+//!        "reqs": [ {"op":"eval","src":i,"manifest":"multi"|"none"}     load source i afresh, evaluate (+ manifest)
+//!                | {"op":"again","src":i,"manifest":...}               evaluate the thunk of the latest load of i again
+//!                | {"op":"call","src":i,"args":{name: code}}           evaluate, then call with named args
+//!                | {"op":"gc"} | {"op":"max_stack","s":N} ] }
+
+use std::collections::HashMap;
+
+use rsjsonnet_lang::arena::Arena;
+use rsjsonnet_lang::program::{EvalError, Program, Thunk};
 use serde_json::{Value as J, json};
 
-pub fn run(_case: &J) -> J {
-    json!({"tool_error": "not implemented"})
+use crate::evalcase::{Cb, Sources, eval_error_desc, load_error_desc};
+
+pub fn run(case: &J) -> J {
+    let arena = Arena::new();
+    let mut program = Program::new(&arena);
+    let mut cb = Cb {
+        traces: Vec::new(),
+        files: HashMap::new(),
+        cache: HashMap::new(),
+        loads: Vec::new(),
+        sources: Sources::new(&program),
+    };
+    if let Some(files) = case.get("files").and_then(|f| f.as_object()) {
+        for (k, v) in files {
+            cb.files
+                .insert(k.clone(), v.as_str().unwrap().as_bytes().to_vec());
+        }
+    }
+    if let Some(m) = case.get("ext_code").and_then(|m| m.as_object()) {
+        for (k, v) in m {
+            let code = v.as_str().unwrap().as_bytes().to_vec();
+            let (ctx, sid) = program.span_manager_mut().insert_source_context(code.len());
+            cb.sources.add(sid, code.len());
+            match program.load_source(ctx, &code, true, &format!("<extvar:{k}>")) {
+                Ok(th) => {
+                    let name = program.intern_str(k);
+                    program.add_ext_var(name, &th);
+                }
+                Err(e) => {
+                    return json!({"tool_error": format!("ext code does not load: {:?}", load_error_desc(&e, program.span_manager(), &cb.sources))});
+                }
+            }
+        }
+    }
+    let sources: Vec<Vec<u8>> = case["sources"]
+        .as_array()
+        .unwrap()
+        .iter()
+        .map(|s| s.as_str().unwrap().as_bytes().to_vec())
+        .collect();
+    let mut latest: HashMap<usize, Thunk<'_>> = HashMap::new();
+    let mut out = Vec::new();
+
+    for req in case["reqs"].as_array().unwrap() {
+        let op = req["op"].as_str().unwrap();
+        match op {
+            "gc" => {
+                program.gc();
+                out.push(json!({"gc": program.verif_num_objects()}));
+                continue;
+            }
+            "max_stack" => {
+                program.set_max_stack(req["s"].as_u64().unwrap() as usize);
+                out.push(json!({"max_stack": req["s"]}));
+                continue;
+            }
+            _ => {}
+        }
+        let i = req["src"].as_u64().unwrap() as usize;
+        let thunk = if op == "again" && latest.contains_key(&i) {
+            latest[&i].clone()
+        } else {
+            let src = &sources[i];
+            let (ctx, sid) = program.span_manager_mut().insert_source_context(src.len());
+            cb.sources.add(sid, src.len());
+            match program.load_source(ctx, src, true, &format!("<src{i}>")) {
+                Ok(t) => {
+                    latest.insert(i, t.clone());
+                    t
+                }
+                Err(e) => {
+                    out.push(json!({"err": load_error_desc(&e, program.span_manager(), &cb.sources)}));
+                    continue;
+                }
+            }
+        };
+        let manifest = req
+            .get("manifest")
+            .and_then(|m| m.as_str())
+            .unwrap_or("multi")
+            .to_string();
+        cb.traces.clear();
+        let r: Result<J, EvalError> = (|| {
+            let mut value = program.eval_value(&thunk, &mut cb)?;
+            if op == "call" {
+                let mut named = Vec::new();
+                if let Some(m) = req.get("args").and_then(|m| m.as_object()) {
+                    for (k, v) in m {
+                        let code = v.as_str().unwrap().as_bytes().to_vec();
+                        let (ctx, sid) =
+                            program.span_manager_mut().insert_source_context(code.len());
+                        cb.sources.add(sid, code.len());
+                        let th = program
+                            .load_source(ctx, &code, true, &format!("<arg:{k}>"))
+                            .expect("argument code must load");
+                        named.push((program.intern_str(k), th));
+                    }
+                }
+                let f = program.value_to_thunk(&value);
+                value = program.eval_call(&f, &[], &named, &mut cb)?;
+            }
+            match manifest.as_str() {
+                "multi" => Ok(J::String(program.manifest_json(&value, true)?)),
+                "none" => Ok(json!(if value.is_function() {
+                    "function"
+                } else if value.is_object() {
+                    "object"
+                } else if value.is_array() {
+                    "array"
+                } else {
+                    "primitive"
+                })),
+                other => panic!("unknown manifest mode {other}"),
+            }
+        })();
+        match r {
+            Ok(v) => out.push(json!({"ok": v, "traces": cb.traces.clone()})),
+            Err(e) => {
+                let d = eval_error_desc(&e, program.span_manager(), &cb.sources);
+                out.push(json!({"err": {"stage": "eval", "kind": d["kind"], "msg": d["msg"]}, "traces": cb.traces.clone()}));
+            }
+        }
+    }
+    json!({"outs": out})
 }
